@@ -13,10 +13,10 @@ from .. import runs as R
 from ..common import Slice
 
 MODULE = 'PyhmsVerif.Props.C13R5SNodup'
-THEOREMS = ['C13.worse_mirror', 'C13.better_mirror', 'C13.best_mirror', 'C13.trialWins_mirror', 'C13.deSurvivors_mirror', 'C13.deSelect_mirror', 'C13.countAtLeast_mirror', 'C13.sentinel_mirror', 'C13.getSeeds_mirror', 'C13.cluster_mirror', 'C13.generate_mirror', 'C13.applyFilter_mirror', 'C13.levelLimitLevel_mirror', 'C13.demeLimit_mirror', 'C13.sortDesc_mirror', 'C13.exec_mirror', 'C13.step_mirror', 'C13.init_mirror', 'C13.genOk_mirror', 'C13.evalStack_mirror', 'F64.rnd_neg', 'R5S.r5s_mirror', 'R5S.r5s_mem', 'R5S.r5sD_eq', 'R5S.select_map', 'R5S.selectIdx_nodup', 'EngineDE.deGen_mirror', 'EngineMirror.shadeGen_mirror']
+THEOREMS = ['C13.worse_mirror', 'C13.better_mirror', 'C13.best_mirror', 'C13.trialWins_mirror', 'C13.deSurvivors_mirror', 'C13.deSelect_mirror', 'C13.countAtLeast_mirror', 'C13.sentinel_mirror', 'C13.getSeeds_mirror', 'C13.cluster_mirror', 'C13.generate_mirror', 'C13.applyFilter_mirror', 'C13.levelLimitLevel_mirror', 'C13.demeLimit_mirror', 'C13.sortDesc_mirror', 'C13.exec_mirror', 'C13.step_mirror', 'C13.init_mirror', 'C13.genOk_mirror', 'C13.evalStack_mirror', 'F64.rnd_neg', 'R5S.r5s_mirror', 'R5S.r5s_mem', 'R5S.r5sD_eq', 'R5S.select_map', 'R5S.selectIdx_nodup', 'EngineDE.deGen_mirror', 'EngineMirror.shadeGen_mirror', 'EngineMirror.seaOffspring_mirror']
 EXTRA_MODULES = ['PyhmsVerif.Props.EngineDE', 'PyhmsVerif.Props.EngineMirror']
 LEVEL = "proof"
-LEVEL_TEXT = 'Theorems for all populations: ordering, best-individual query, DE/SHADE replacement and order statistics select mirror images under (f, max) and (-f, min). Tie to the code: twin calls of the real Individual ordering, max, Population.topk, TournamentSelection, DE.run, SHADE.run, NearestBetterClustering, DemeLimit, LevelLimit, R5SSelection on mirrored inputs with identical RNG state, and twin whole seeded runs (DE, SHADE, CMA-ES, local, LHS, Sobol mixes, both mechanisms and user-composed ones) compared genome by genome. NEW: getSeeds_mirror — for every tree view, environment (distances, NBC means) and mechanism (any generator, any chain of filters) the seeds selected under maximize=true are exactly the mirror images (same parents, same genomes, negated fitness, same order) of the seeds selected on the mirrored view under maximize=false: nearest-better clustering (cluster_mirror), best-per-deme, DemeLimit, LevelLimit (finding D8 class), FarEnough, NBC_FarEnough, SkipSameSprout. NEW (whole runs): step_mirror / exec_mirror / init_mirror — for every state of a tree that maximises f and every event sequence, the tree machine run on the mirrored state (all stored / logged / requested fitness values negated, optima of precision wrappers negated, maximize=false) with the mirrored events accepts exactly when the original does, refuses with the same message at the same event, and ends in the mirrored state: bookkeeping, acceptance of generations, wrapper stacks incl. the binary64 precision test (F64.rnd_neg), stop conditions, sprouting, hibernation. NEW (R5S): r5s_mirror — R5SSelection on (-f, min) returns the mirror images, in the same order, of what it returns on (f, max), for every population, distance matrix and weighted sums (after the stable best-first sort the selection never looks at a fitness value: select_map); the model R5S.r5sD (sort, minima, binary64 isclose filter, top-k and dominated scan) is diffed against pyhms.utils.r5s.R5SSelection. ENGINE LEVEL (Model/Engine.lean, Props/EngineDE.lean): one whole generation of DE.run / SHADE.run is in the model, deterministic given the generator draws (donor arithmetic in binary64, reflect repair, crossover mask incl. the row-zeroing quirk, fitness carry-over, which rows are evaluated, replacement), and is diffed bit-exactly against the real engines with recorded draws: deGen_mirror — a whole DE generation under maximize=true and the same generation on the mirrored population (fitness and objective values negated, maximize=false) are defined together and are mirror images: same trial genomes, same requests in the same order, same survivors; EngineMirror.shadeGen_mirror — the same for a whole SHADE generation (p-best admissibility, archive included).'
+LEVEL_TEXT = 'Theorems for all populations: ordering, best-individual query, DE/SHADE replacement and order statistics select mirror images under (f, max) and (-f, min). Tie to the code: twin calls of the real Individual ordering, max, Population.topk, TournamentSelection, DE.run, SHADE.run, NearestBetterClustering, DemeLimit, LevelLimit, R5SSelection on mirrored inputs with identical RNG state, and twin whole seeded runs (DE, SHADE, CMA-ES, local, LHS, Sobol mixes, both mechanisms and user-composed ones) compared genome by genome. NEW: getSeeds_mirror — for every tree view, environment (distances, NBC means) and mechanism (any generator, any chain of filters) the seeds selected under maximize=true are exactly the mirror images (same parents, same genomes, negated fitness, same order) of the seeds selected on the mirrored view under maximize=false: nearest-better clustering (cluster_mirror), best-per-deme, DemeLimit, LevelLimit (finding D8 class), FarEnough, NBC_FarEnough, SkipSameSprout. NEW (whole runs): step_mirror / exec_mirror / init_mirror — for every state of a tree that maximises f and every event sequence, the tree machine run on the mirrored state (all stored / logged / requested fitness values negated, optima of precision wrappers negated, maximize=false) with the mirrored events accepts exactly when the original does, refuses with the same message at the same event, and ends in the mirrored state: bookkeeping, acceptance of generations, wrapper stacks incl. the binary64 precision test (F64.rnd_neg), stop conditions, sprouting, hibernation. NEW (R5S): r5s_mirror — R5SSelection on (-f, min) returns the mirror images, in the same order, of what it returns on (f, max), for every population, distance matrix and weighted sums (after the stable best-first sort the selection never looks at a fitness value: select_map); the model R5S.r5sD (sort, minima, binary64 isclose filter, top-k and dominated scan) is diffed against pyhms.utils.r5s.R5SSelection. ENGINE LEVEL (Model/Engine.lean, Props/EngineDE.lean): one whole generation of DE.run / SHADE.run is in the model, deterministic given the generator draws (donor arithmetic in binary64, reflect repair, crossover mask incl. the row-zeroing quirk, fitness carry-over, which rows are evaluated, replacement), and is diffed bit-exactly against the real engines with recorded draws: deGen_mirror — a whole DE generation under maximize=true and the same generation on the mirrored population (fitness and objective values negated, maximize=false) are defined together and are mirror images: same trial genomes, same requests in the same order, same survivors; EngineMirror.shadeGen_mirror — the same for a whole SHADE generation (p-best admissibility, archive included); EngineMirror.seaOffspring_mirror — the same for one pass of the SEA variational pipeline of all three shipped variants (tournament = first best contestant, crossover, mutation, evaluation).'
 LEVEL_NOTE = "Trusted: Lean kernel + standard axioms; that CMA-ES / L-BFGS-B descend on what they are fed is library behaviour (observed through the twin runs, not proved); SEA-family levels are covered decision by decision (their top-k keeps the same set in mirrored order); FitnessSteadiness and the precision stop condition read raw values and are excluded from whole-run twins as the property states."
 TECHNIQUE = "Lean 4 mirror lemmas for the decision kernels + twin-call and twin-run differential"
 RULE = "component case = one decision function called on a random population (ties, plateaus, +-inf) under (f,max) and (-f,min); run case = one index-stable configuration run twice; non-trivial = ties present / >= 2 demes; distinct by content hash"
